@@ -458,3 +458,14 @@ package multiplex
 //@   ensures p.closed && buflen(p.buf) == acq(buflen(p.buf)) && ret0 == nil
 //@   ensures wakes: ghostget("broadcasts", p.rwCond) > old(ghostget("broadcasts", p.rwCond))
 //@   flag noframe
+
+//@ func (*Session).GetSessionKey
+//@   requires sesh != nil
+//@   ensures ret0 == sesh.sessionKey
+// AddConnection hands the connection to the switchboard (its receive goroutine is not followed here);
+// the caller's configuration objects are not touched (assumed; see C01 for addConn itself).
+//@ func (*Session).AddConnection
+//@   flag trusted
+//@   requires sesh != nil
+//@   modifies *
+//@   preserves heap(F_server.State.Panel), heap(F_server.State.AdminUID), heap(F_server.State.ProxyBook)
